@@ -36,6 +36,8 @@ var ModSeeds = []string{
 	"module example.com/m\n\nrequire (\n\ta.com/x v1.0.0 // s1\n\ta.com/x v1.0.0 // s2\n\ta.com/x v1.1.0 // s3\n)\n",
 	// 14: block comments and trailing comments
 	"module example.com/m // s0\n\n// before go\ngo 1.20 // s1\n\n// before block\nrequire ( // on lparen\n\t// b1\n\ta.com/x v1.0.0 // s2\n) // on rparen\n\n// trailing comment\n",
+	// 15: blank lines inside blocks, followed by leading comments of the next line
+	"module example.com/m\n\ngo 1.20\n\nrequire (\n\ta.com/x v1.0.0 // s1\n\n\t// b2\n\tb.com/y v1.1.0 // s2\n\n\t// b3\n\t// b3b\n\ta.com/x/v2 v2.0.0 // s3\n)\n\nexclude (\n\ta.com/x v1.0.0 // s4\n\n\t// b5\n\ta.com/x v1.1.0 // s5\n)\n",
 }
 
 // ModSeedsTypedOnly are further go.mod seeds for the typed-structure-versus-file check (C15) only: a
